@@ -336,9 +336,11 @@ impl TemplateStructure for Expression {
             Self::LitArr {
                 bracket_location, ..
             } => bracket_location.1.end,
-            Self::StaticMember { obj, .. } => obj.location_end(),
-            Self::DynamicMember { obj, .. } => obj.location_end(),
-            Self::FuncCall { func, .. } => func.location_end(),
+            Self::StaticMember { field_location, .. } => field_location.end,
+            Self::DynamicMember {
+                bracket_location, ..
+            } => bracket_location.1.end,
+            Self::FuncCall { paren_location, .. } => paren_location.1.end,
             Self::Reverse { location, .. } => location.end,
             Self::BitReverse { location, .. } => location.end,
             Self::Positive { location, .. } => location.end,
